@@ -166,7 +166,9 @@ const (
 
 var c02SwitchName = [nSwitches]string{"on", "profile-off", "device-off", "anonymous"}
 
-var c02MTTLs = []int{10, 3600}
+// Profile TTLs: zero (valid: "non-negative"; what the backend's omitted field
+// becomes), a small and a large one.
+var c02MTTLs = []int{0, 10, 3600}
 
 type c02MRig struct {
 	mgr       *c02MMgr
@@ -860,9 +862,13 @@ func c02MRunKeep(r *vrt.Run, rig *c02MRig, c c02MCase, keep bool) (fs []vrt.Find
 	}
 	r.Trans(1 + len(rig.up.asked))
 	resp := rw.Msg()
-	if !ended && (err != nil || resp == nil || len(rig.errs.errs) > 0) {
+	if !ended && (err != nil || resp == nil) {
 		return vrt.F("mainmw/error", "%s: err=%v resp=%v collected=%v", ctxt, err, resp != nil, rig.errs.errs)
 	}
+	// Errors given to the error collector (by ratelimitmw while it builds the
+	// requester's constructor, by mainmw while it filters) do not end the
+	// request: the written message is judged first, with the errors quoted.
+	collected := append([]error{}, rig.errs.errs...)
 	if !ended && len(rig.statIDs) != 1 {
 		vrt.Fatalf("%s: rule statistics called %d times", ctxt, len(rig.statIDs))
 	}
@@ -955,6 +961,8 @@ func c02MRunKeep(r *vrt.Run, rig *c02MRig, c c02MCase, keep bool) (fs []vrt.Find
 	// type, credited source, form of the written answer).
 	r.State(fmt.Sprintf("c|%s|%d|%d|%d|%d|%v|%s|%d|%d|%d", strings.Join(want, ","), c.Switch, mode, ttl, c.QType, c.CNAME, gotSrc, resp.Rcode, len(resp.Answer), len(resp.Ns)))
 	switch {
+	case ok && len(collected) > 0 && !ended:
+		return vrt.F("mainmw/error", "%s: the written message conforms but errors were collected: %v", ctxt, collected)
 	case ok:
 		return nil
 	case !srcOK:
@@ -972,8 +980,8 @@ func c02MRunKeep(r *vrt.Run, rig *c02MRig, c c02MCase, keep bool) (fs []vrt.Find
 			"%s: the middleware credits %q; the statement admits only {%s}; written: %s", ctxt, rig.statIDs[0], strings.Join(want, " | "), vdns.Canon(resp, true))
 	default:
 		return vrt.F("mainmw/"+reasons[0],
-			"%s: deciding source %s; admitted verdicts {%s}; the written answer does not conform (%s): %s; upstream asked %q",
-			ctxt, gotSrc, strings.Join(want, " | "), strings.Join(reasons, ","), vdns.Canon(resp, true), rig.up.asked)
+			"%s: deciding source %s; admitted verdicts {%s}; the written answer does not conform (%s): %s; upstream asked %q; collected errors: %v",
+			ctxt, gotSrc, strings.Join(want, " | "), strings.Join(reasons, ","), vdns.Canon(resp, true), rig.up.asked, collected)
 	}
 }
 
